@@ -50,12 +50,27 @@ Theorem roundtrip_preserves_store_view :
     mem_ustr kid ids = true -> plain_dict kw = true -> id_given w kid kw = true ->
     run vr ev w pattern_ok selectors_ok fuel (RConstruct kid allow interop kw vrefs) = Ok o ->
     run vr ev w pattern_ok selectors_ok fuel (RConstruct kid allow interop (omem o) vrefs) = Ok o' ->
-    store_view tag o' = store_view tag o.
+    o' = o /\ store_view tag o' = store_view tag o.
 Proof.
   intros vr ev w pok sok Hy ids Hc fuel kid allow interop kw vrefs o o' tag H1 H2 H3 Hr Hr'.
   pose proof (construct_roundtrip vr ev w pok sok Hy ids Hc fuel kid allow interop kw vrefs o H1 H2 H3 Hr) as E.
-  rewrite E in Hr'. inversion Hr'. reflexivity.
+  rewrite E in Hr'. inversion Hr'. split; reflexivity.
 Qed.
+
+(* store_view is not the trivial None on objects of the shape the stores hold: a concrete identity *)
+Definition sv_example : pval :=
+  PObject (u "identity") [(u "type", PJ (JStr (u "identity")));
+                          (u "id", PJ (JStr (u "identity--00000001-0000-4000-8000-000000000001")));
+                          (u "created", PTime 1420070400000000%Z (u "2015-01-01T00:00:00.000Z"));
+                          (u "modified", PTime 1577836800000000%Z (u "2020-01-01T00:00:00.000Z"));
+                          (u "created_by_ref", PJ (JStr (u "identity--00000002-0000-4000-8000-000000000002")))] [] false.
+
+Lemma store_view_example :
+  store_view 7 sv_example =
+  Some (S.mkObj (u "identity--00000001-0000-4000-8000-000000000001") (u "identity")
+                (S.VInst 1577836800000000%Z) (S.VInst 1420070400000000%Z) 7
+                [(S.k_created_by_ref, u "identity--00000002-0000-4000-8000-000000000002")]).
+Proof. vm_compute. reflexivity. Qed.
 
 (* ---------- bundles (MemorySink.save_to_file / load_from_file; bundlify) ---------- *)
 From V Require Import Proofs.C01Parse Proofs.C01Bundle.
@@ -83,9 +98,9 @@ Theorem bundle_roundtrip_preserves_store_views :
     run vr ev w pattern_ok selectors_ok fuel (RConstruct kid allow interop kw vrefs) = Ok o ->
     bundle_members_ok w pids kw o = true ->
     run vr ev w pattern_ok selectors_ok fuel (RConstruct kid allow interop (omem o) vrefs) = Ok o' ->
-    bundle_views tag o' = bundle_views tag o.
+    o' = o /\ bundle_views tag o' = bundle_views tag o.
 Proof.
   intros vr ev w pok sok Hy ids Hc Hreg pids Hp1 Hp2 fuel kid allow interop kw vrefs o o' c tag Hf Hb Hpl Hr Hm Hr'.
   pose proof (bundle_roundtrip vr ev w pok sok Hy ids Hc Hreg pids Hp1 Hp2 fuel kid allow interop kw vrefs o c Hf Hb Hpl Hr Hm) as E.
-  rewrite E in Hr'. inversion Hr'. reflexivity.
+  rewrite E in Hr'. inversion Hr'. split; reflexivity.
 Qed.
